@@ -284,9 +284,9 @@ def lprobe(G, pol, exe, confstr=None):
             "ctypes_version": None, "policy": pol, "ld_stderr": ""}
 
 
-def real_manylinux(G, archs, pol, exe):
+def real_manylinux(G, archs, pol, exe, via=None):
     from packaging import _manylinux
-    with T.probes(lprobe(G, pol, exe)):
+    with T.probes(dict(lprobe(G, pol, exe), policy_via=via)):
         return list(_manylinux.platform_tags(list(archs)))
 
 
@@ -628,6 +628,12 @@ class C16(Prop):
             want = spec_manylinux(G, archs, pol, spec_abi_ok(archs, exe))
             if got != want:
                 return False, f"manylinux tags for glibc {G} archs {archs}: " + first_diff(got, want)
+            if pol is not None:
+                # the same policy module installed on the import path but not imported by anyone yet
+                got2 = real_manylinux(G, archs, pol, exe, via="path")
+                if got2 != want:
+                    return False, (f"manylinux tags for glibc {G} archs {archs} with the _manylinux policy module installed "
+                                   f"but not yet imported: " + first_diff(got2, want))
             return self._invariants(got, "manylinux", G, archs)
         if law == "musllinux_is_spec":
             V, archs = tuple(inp["v"]), inp["archs"]
